@@ -100,7 +100,7 @@ def contract_labels(key, fname=None):
 
 
 # library functions the crate does not call today but whose contract in prelude/ is a complete functional specification
-FULLY_SPECIFIED = {'length_of_length', 'trim_start_matches', 'strip_prefix', 'map_or', 'try_from', 'write_str', 'encode_string'}
+FULLY_SPECIFIED = {'length_of_length', 'trim_start_matches', 'strip_prefix', 'map_or', 'try_from', 'write_str', 'encode_string', 'eq_ignore_ascii_case'}
 # std functions for which the installed vstd proves a functional characterisation (probed with tools/probes/: each name was
 # called in a one-line function whose postcondition states the std documentation, and Verus discharged it)
 FULLY_SPECIFIED |= {
